@@ -15,6 +15,7 @@ import (
 
 	gohlslib "github.com/bluenviron/gohlslib/v2"
 	"github.com/bluenviron/gohlslib/v2/pkg/codecs"
+	"github.com/bluenviron/mediacommon/v2/pkg/codecs/h265"
 	"github.com/bluenviron/mediacommon/v2/pkg/codecs/mpeg4audio"
 	"github.com/bluenviron/mediacommon/v2/pkg/formats/fmp4"
 )
@@ -130,10 +131,9 @@ func concretize(h *history, a *auA) concrete {
 		}
 		u := a.Units[0]
 		if a.RA {
-			au = append(au, h265NALU(h265RATypes[u.ID%3], fill(u.ID, u.Len)))
-		}
-		if a.NonIDR {
-			au = append(au, h265NALU(h265NonRATypes[u.ID%6], fill(u.ID, u.Len)))
+			au = append(au, h265Slice(h265SliceType(u.ID, true), u.ID, u.Len, a.RpsArg))
+		} else if a.NonIDR {
+			au = append(au, h265Slice(h265SliceType(u.ID, false), u.ID, u.Len, a.RpsArg))
 		}
 		if !a.RA && !a.NonIDR {
 			// no picture data; writeH265 has no "neither IDR nor non-IDR" filter, the unit becomes a sample,
@@ -207,10 +207,28 @@ func concretize(h *history, a *auA) concrete {
 
 // fills FSize / TSize of the abstract units from the concrete bytes (oracle values of the model)
 func annotate(h *history) {
+	// shadow DTS extractors (H265): the abstract dts is what the muxer's own extractor must return for
+	// the concrete access units; a disagreement is a concretisation / history defect, reported loudly
+	shadow := map[int]*h265.DTSExtractor{}
+	warned := false
 	for i := range h.Ops {
 		a := &h.Ops[i]
 		c := concretize(h, a)
 		t := h.Tracks[a.Track]
+		if t.Kind == kH265 {
+			ex := shadow[a.Track]
+			if ex == nil && a.RA {
+				ex = &h265.DTSExtractor{}
+				ex.Initialize()
+				shadow[a.Track] = ex
+			}
+			if ex != nil {
+				if d, err := ex.Extract(c.au, a.PTS); (err != nil || d != a.DTS) && !warned {
+					warned = true
+					fmt.Fprintf(os.Stderr, "mux harness: H265 DTS extractor disagrees with the abstract history at write %d: got %d (%v), history says dts %d pts %d\n", i, d, err, a.DTS, a.PTS)
+				}
+			}
+		}
 		if isVideoKind(t.Kind) {
 			a.Units[0].FSize, a.Units[0].TSize = c.fsize, c.tsize
 		} else {
